@@ -187,7 +187,7 @@ Subst(t, bind) ==
     [] OTHER -> t
 
 \* ===================================================================== Part 3
-MaxLit == 40
+MaxLit == 20
 HexD == <<"0", "1", "2", "3", "4", "5", "6", "7", "8", "9", "A", "B", "C", "D", "E", "F">>
 HexL == <<"0", "1", "2", "3", "4", "5", "6", "7", "8", "9", "a", "b", "c", "d", "e", "f">>
 RECURSIVE HexS(_, _), BinS(_)
@@ -204,24 +204,41 @@ FracTable == [s \in {"0.5", "1.5", "2.5", "0.25", "0.75", "2.50", "0.1"} |->
                CASE s = "0.5" -> <<1, 2>> [] s = "1.5" -> <<3, 2>> [] s = "2.5" -> <<5, 2>>
                  [] s = "0.25" -> <<1, 4>> [] s = "0.75" -> <<3, 4>> [] s = "2.50" -> <<5, 2>>
                  [] s = "0.1" -> <<1, 10>>]
-LitPairs == {<<Spell(n, st), n>> : n \in 0..MaxLit, st \in NumStyles}
-IntLits == {p[1] : p \in LitPairs}
-IsLit(s) == s \in IntLits \/ s \in DOMAIN FracTable
-LitVal(s) == IF s \in DOMAIN FracTable THEN FracTable[s] ELSE <<(CHOOSE p \in LitPairs : p[1] = s)[2], 1>>
-NumSpell(q, st) == IF q[2] = 1 /\ q[1] <= MaxLit THEN Spell(q[1], st)
-                   ELSE CHOOSE s \in DOMAIN FracTable : FracTable[s] = q /\ s # "2.50"
+\* The spellings of 0..MaxLit, written out (TLC re-evaluates computed tables at every use); the law
+\* SpellTableOK (MathExpr_MC) checks every entry against the positional definition Spell above.
+LitD == <<"0", "1", "2", "3", "4", "5", "6", "7", "8", "9", "10", "11", "12", "13", "14", "15", "16", "17", "18", "19", "20">>
+LitX == <<"0x0", "0x1", "0x2", "0x3", "0x4", "0x5", "0x6", "0x7", "0x8", "0x9", "0xA", "0xB", "0xC", "0xD", "0xE", "0xF", "0x10", "0x11", "0x12", "0x13", "0x14">>
+LitXL == <<"0x0", "0x1", "0x2", "0x3", "0x4", "0x5", "0x6", "0x7", "0x8", "0x9", "0xa", "0xb", "0xc", "0xd", "0xe", "0xf", "0x10", "0x11", "0x12", "0x13", "0x14">>
+LitB == <<"0b0", "0b1", "0b10", "0b11", "0b100", "0b101", "0b110", "0b111", "0b1000", "0b1001", "0b1010", "0b1011", "0b1100", "0b1101", "0b1110", "0b1111", "0b10000", "0b10001", "0b10010", "0b10011", "0b10100">>
+LitF == <<"0.0", "1.0", "2.0", "3.0", "4.0", "5.0", "6.0", "7.0", "8.0", "9.0", "10.0", "11.0", "12.0", "13.0", "14.0", "15.0", "16.0", "17.0", "18.0", "19.0", "20.0">>
+LitSeq(st) == CASE st = "d" -> LitD [] st = "x" -> LitX [] st = "xl" -> LitXL [] st = "b" -> LitB [] st = "f" -> LitF
+SpellTableOK == \A st \in NumStyles : Len(LitSeq(st)) = MaxLit + 1 /\ \A n \in 0..MaxLit : LitSeq(st)[n + 1] = Spell(n, st)
+InSeq(s, sq) == \E i \in 1..Len(sq) : sq[i] = s
+IdxIn(s, sq) == CHOOSE i \in 1..Len(sq) : sq[i] = s
+LitStyleOf(s) == IF InSeq(s, LitD) THEN "d" ELSE IF InSeq(s, LitX) THEN "x" ELSE IF InSeq(s, LitXL) THEN "xl"
+                 ELSE IF InSeq(s, LitB) THEN "b" ELSE IF InSeq(s, LitF) THEN "f" ELSE ""
+FracDom == {"0.5", "1.5", "2.5", "0.25", "0.75", "2.50", "0.1"}
+IsLit(s) == s \in FracDom \/ LitStyleOf(s) # ""
+LitVal(s) == IF s \in FracDom THEN FracTable[s] ELSE <<IdxIn(s, LitSeq(LitStyleOf(s))) - 1, 1>>
+NumSpell(q, st) == IF q[2] = 1 /\ q[1] <= MaxLit THEN LitSeq(st)[q[1] + 1]
+                   ELSE CHOOSE s \in FracDom : FracTable[s] = q /\ s # "2.50"
 
 NVars == 8
 VarBare == <<"x", "y", "z", "w", "p", "q", "r", "s">>
 VarStyles == {"bare", "boxed", "idx"}
-VarSpell(i, st) ==
+VarSpellDef(i, st) ==
   CASE st = "bare" -> VarBare[i]
     [] st = "boxed" -> "[" \o VarBare[i] \o "]"
     [] st = "idx" -> "[" \o ToString(i - 1) \o "]"
-VarPairs == {<<VarSpell(i, st), i>> : i \in 1..NVars, st \in VarStyles}
-VarToks == {p[1] : p \in VarPairs}
-IsVar(s) == s \in VarToks
-VarIdx(s) == (CHOOSE p \in VarPairs : p[1] = s)[2]
+VarBoxed == <<"[x]", "[y]", "[z]", "[w]", "[p]", "[q]", "[r]", "[s]">>
+VarIdxS == <<"[0]", "[1]", "[2]", "[3]", "[4]", "[5]", "[6]", "[7]">>
+VarSeq(st) == CASE st = "bare" -> VarBare [] st = "boxed" -> VarBoxed [] st = "idx" -> VarIdxS
+VarTableOK == \A st \in VarStyles : \A i \in 1..NVars : VarSeq(st)[i] = VarSpellDef(i, st)
+VarSpell(i, st) == VarSeq(st)[i]
+VarStyleOf(s) == IF InSeq(s, VarBare) THEN "bare" ELSE IF InSeq(s, VarBoxed) THEN "boxed"
+                 ELSE IF InSeq(s, VarIdxS) THEN "idx" ELSE ""
+IsVar(s) == VarStyleOf(s) # ""
+VarIdx(s) == IdxIn(s, VarSeq(VarStyleOf(s)))
 
 (* variant: par = "min" (only the parentheses the grammar needs) | "full"       *)
 (* (every operand, even a leaf, in parentheses); imp: the `*` before a group is *)
@@ -315,7 +332,7 @@ Scan(toks, i, st, mal, und) ==
        ELSE IF h \in BinOps THEN Scan(toks, i + 1, "E", mal, und)
             ELSE IF h = "(" THEN Scan(toks, i + 1, "E", mal, und)
             ELSE IF h = ")" THEN Scan(toks, i + 1, "A", mal, und)
-            ELSE IF h = "!" THEN Scan(toks, i + 1, "U", mal, TRUE)
+            ELSE IF h = "!" THEN Scan(toks, i + 1, "A", mal, TRUE)      \* not an operator here: part of a word
             ELSE IF h \in Funcs THEN Scan(toks, i + 1, "F", mal, TRUE)
             ELSE Scan(toks, i + 1, "A", mal, TRUE)
 Class(toks) ==
@@ -342,6 +359,20 @@ Render(toks, spaced) ==
   IF toks = <<>> THEN <<>>
   ELSE (IF toks[1] \in BinOps THEN OpUnits(toks[1]) ELSE <<toks[1]>>)
        \o (IF spaced /\ Len(toks) > 1 THEN <<" ">> ELSE <<>>) \o Render(Tail(toks), spaced)
+
+\* What is left of a formula when the blanks inside parentheses are dropped (the tokenizer copies a
+\* group's text without them and tokenizes it again): two operator characters become one operator,
+\* `(2 < < 3)` is read as `(2 << 3)`.  Used to tell this known leniency from other accepted malformed formulas.
+RECURSIVE GMerge(_, _, _)
+GMerge(toks, i, depth) ==
+  IF i > Len(toks) THEN <<>>
+  ELSE LET h == toks[i] IN
+       IF h = "(" THEN <<h>> \o GMerge(toks, i + 1, depth + 1)
+       ELSE IF h = ")" THEN <<h>> \o GMerge(toks, i + 1, depth - 1)
+       ELSE IF depth > 0 /\ i < Len(toks) /\ PairOp(h, toks[i + 1]) # ""
+            THEN <<PairOp(h, toks[i + 1])>> \o GMerge(toks, i + 2, depth)
+       ELSE <<h>> \o GMerge(toks, i + 1, depth)
+GroupMerge(toks) == GMerge(toks, 1, 0)
 
 \* ops.go: orderOfOps / opCodeOrder / prefixInOps / hasUnaryOp
 OrderOfOps == <<{"^"}, {">>", "<<"}, {"*", "/", "%"}, {"&", "|"}, {"+", "-"},
@@ -393,6 +424,9 @@ ICompileToken(t) ==
   IF t.t = "lit" THEN
        IF Len(t.val) = 1 /\ IsVar(t.val[1]) THEN IOK(Var(VarIdx(t.val[1])), <<>>)
        ELSE IF Len(t.val) = 1 /\ IsLit(t.val[1]) THEN IOK(Num(LitVal(t.val[1])), <<>>)
+       ELSE IF (\E i \in 1..Len(t.val) : t.val[i] = "!")
+               /\ ~(\E i \in 1..Len(t.val) : VarStyleOf(t.val[i]) \in {"boxed", "idx"})
+            THEN IErr("expected numeric")       \* neither a number, nor [..], nor a valid variable name
        ELSE IOK(Unk, <<>>)
   ELSE IF t.t = "group" THEN ICompile(t.val)
   ELSE IErr("expected expression")
